@@ -156,12 +156,18 @@ def chk_entry(root, i):
         "second-call-same-node": lambda: (lambda n: (n.ckd(i), n.ckd(i))[1])(hdscen.impl_root(root)),
         "after-neighbour": lambda: (lambda n: (n.ckd(i ^ H), n.ckd(i))[1])(hdscen.impl_root(root)),
     }
+    for how in ("copy.copy", "copy.deepcopy", "pickle"):
+        # a duplicated child prints the same keys; a duplicated parent derives the same child
+        ways["%s(child)" % how] = (lambda h: lambda: dict(hdscen.clones(hdscen.impl_root(root).ckd(i)))[h])(how)
+        ways["%s(parent).ckd" % how] = (lambda h: lambda: dict(hdscen.clones(hdscen.impl_root(root)))[h].ckd(i))(how)
     viols = []
     cls = "hardened" if i >= H else "normal"
     for name, f in ways.items():
         if root.get("depth") and name.startswith(("wallet.by_path",)):
             continue
         st, node = attempt(f)
+        if st != "ok" and name.startswith(("copy.", "pickle")) and str(node).startswith("KeyError"):
+            continue          # this way of duplicating is not offered by the class
         if st != "ok":
             viols.append(V("%s:entry:%s:%s:refused" % (P, name, cls), "%s for index %d on %r raised %s" % (name, i, root, node)))
             continue
